@@ -492,6 +492,18 @@ def shared_state(ctx):
                                   'entries are filed under id(self): the id of a collected object is handed to a later one, which then finds the dead object\'s entries',
                                   key='C18.shared|%s.%s|%s' % (mod, name, fn.qn))
                     continue
+                if not ok and _import_time_only(M, fn, inner):
+                    # a registration decorator: it runs while the module is imported (applied to definitions), never during a session
+                    ctx.holds('C18.shared', 'module-level table %s.%s is filled while the module is imported, by the registration decorator %s' % (mod, name, fn.qn), fn.site(n))
+                    continue
+                if not ok and isinstance(n, ast.Assign) and any(isinstance(t_, ast.Subscript) and isinstance(t_.value, ast.Name) and t_.value.id == name and
+                                                                 any(isinstance(r_, ast.Subscript) and isinstance(r_.ctx, ast.Load) and isinstance(r_.value, ast.Name) and r_.value.id == name
+                                                                     and ast.unparse(r_.slice) == ast.unparse(t_.slice) for r_ in ast.walk(inner.node)) for t_ in n.targets):
+                    # a process-wide memo (look the key up, compute and file it on a miss): harmless iff the key carries everything an entry depends on and the entries
+                    # are never changed by those who receive them - not decided for module-level tables
+                    ctx.undecided('C18.shared', 'module-level state %s.%s is never written at run time (%s)' % (mod, name, fn.qn), fn.site(n),
+                                  'a process-wide memo table: entries outlive the session that computed them')
+                    continue
                 ctx.require(ok, 'C18.shared', 'module-level state %s.%s is never written at run time (%s)' % (mod, name, fn.qn), fn.site(n),
                             'state that outlives a session makes a later run depend on an earlier one', key='C18.shared|%s.%s|%s' % (mod, name, fn.qn))
             if mutable and not writers:
@@ -515,8 +527,7 @@ def shared_state(ctx):
                 holder = n
                 if isinstance(p, ast.BoolOp) and isinstance(p.op, ast.And) and not any(isinstance(x, ast.Call) for v in p.values for x in ast.walk(v)):
                     holder, p = p, pm.get(p)
-                ok = isinstance(p, ast.If) and p.test is holder and not p.orelse and all(
-                    isinstance(b, ast.Expr) and isinstance(b.value, ast.Call) and isinstance(b.value.func, ast.Name) and b.value.func.id == 'print' for b in p.body)
+                ok = isinstance(p, ast.If) and p.test is holder and not p.orelse and all(_only_prints(b, fn) for b in p.body)
                 guards += 1
                 ctx.require(ok, 'C18.shared', 'the print switch only guards print statements (%s)' % fn.qn, fn.site(n),
                             'PRINT_EVENTS influences more than console output', key='C18.shared|print|%s' % fn.qn)
@@ -555,7 +566,71 @@ def shared_state(ctx):
         for name, v in c.class_attrs.items():
             if name == '__metaclass__':
                 continue
+            if _mutable_literal(v):
+                from ..lib import class_level_table
+                writers_ = [w for w in writers_of_attr(M, name, owner=c.name)]
+                if not class_level_table(M, c, name):
+                    # a class-body default that every construction replaces with the instance's own object: nothing is shared
+                    ctx.holds('C18.shared', 'class-level default %s.%s is rebound per instance by the constructor' % (c.name, name), c.path)
+                    continue
+                if not writers_ and not any(isinstance(n_, ast.Attribute) and n_.attr == name and isinstance(n_.ctx, ast.Store) for g_ in M.all_funcs() for n_ in ast.walk(g_.node)):
+                    # a table written out in the class body and never written to: a constant
+                    ctx.holds('C18.shared', 'class-level table %s.%s is never written' % (c.name, name), c.path)
+                    continue
             ctx.require(not _mutable_literal(v), 'C18.shared', 'no class-level mutable state (%s.%s)' % (c.name, name), c.path, key='C18.shared|class|%s.%s' % (c.name, name))
+
+
+def _import_time_only(M, fn, inner):
+    """fn (a module-level function) is used only as a decorator of definitions - `@fn` / `@fn(args)` - so that its body, and the body of the function it returns,
+    run while modules are imported and at no other time"""
+    if fn.cls is not None or fn.parent is not None:
+        return False
+    used_as_deco = False
+    for g in list(M.all_funcs()):
+        for d_ in g.node.decorator_list:
+            dn = d_.func if isinstance(d_, ast.Call) else d_
+            if isinstance(dn, ast.Name) and dn.id == fn.name:
+                used_as_deco = True
+    for c in M.classes.values():
+        for d_ in getattr(c.node, 'decorator_list', []):
+            dn = d_.func if isinstance(d_, ast.Call) else d_
+            if isinstance(dn, ast.Name) and dn.id == fn.name:
+                used_as_deco = True
+    if not used_as_deco:
+        return False
+    deco_nodes = {id(d_.func if isinstance(d_, ast.Call) else d_) for g in M.all_funcs() for d_ in g.node.decorator_list}
+    deco_nodes |= {id(d_.func if isinstance(d_, ast.Call) else d_) for c in M.classes.values() for d_ in getattr(c.node, 'decorator_list', [])}
+    for g in M.all_funcs():
+        for n_ in ast.walk(g.node):
+            if isinstance(n_, ast.Name) and n_.id == fn.name and isinstance(n_.ctx, ast.Load) and id(n_) not in deco_nodes and g.mod == fn.mod and g is not fn and g.parent is not fn:
+                return False
+    return True
+
+
+def _only_prints(stmt, fn):
+    """the statement only produces console output: print(...), preparing the text in LOCAL variables (assignments to / in-place updates of names that are not
+    parameters), or queueing a print for later (steps.append(partial(print, ...)) / append(lambda: print(...)))"""
+    def is_print_call(c):
+        return isinstance(c, ast.Call) and isinstance(c.func, ast.Name) and c.func.id == 'print'
+
+    def deferred_print(a):
+        if isinstance(a, ast.Lambda):
+            return is_print_call(a.body)
+        return isinstance(a, ast.Call) and ast.unparse(a.func).split('.')[-1] == 'partial' and a.args and isinstance(a.args[0], ast.Name) and a.args[0].id == 'print'
+    params = set(fn.params) | ({p_ for g_ in getattr(fn, 'nested', {}).values() for p_ in g_.params})
+    if isinstance(stmt, ast.Expr) and is_print_call(stmt.value):
+        return True
+    if isinstance(stmt, ast.Expr) and isinstance(stmt.value, ast.Call) and isinstance(stmt.value.func, ast.Attribute) and isinstance(stmt.value.func.value, ast.Name):
+        nm, meth = stmt.value.func.value.id, stmt.value.func.attr
+        if meth == 'append' and len(stmt.value.args) == 1 and deferred_print(stmt.value.args[0]):
+            return True
+        if meth in ('update', 'append', 'extend', 'setdefault') and nm not in params and nm not in ('self', 'cls'):
+            return not any(isinstance(x_, ast.Call) and not is_print_call(x_) and not (isinstance(x_.func, ast.Name) and x_.func.id in ('str', 'repr', 'format', 'round', 'len', 'dict', 'float', 'int'))
+                           and x_ is not stmt.value for x_ in ast.walk(stmt))
+    if isinstance(stmt, ast.Assign) and all(isinstance(t_, ast.Name) and t_.id not in params for t_ in stmt.targets):
+        return not any(isinstance(x_, ast.Call) and not (isinstance(x_.func, ast.Name) and x_.func.id in ('str', 'repr', 'format', 'round', 'len', 'dict', 'float', 'int'))
+                       and not (isinstance(x_.func, ast.Attribute) and x_.func.attr in ('strftime', 'format', 'upper', 'lower', 'join')) for x_ in ast.walk(stmt.value))
+    return False
 
 
 def _ctor_only(M, m, depth=0):
